@@ -20,7 +20,73 @@ from .common import Infra, log
 from .core import Result, Ctx
 
 
+def supervise(argv):
+    """run the check in a child process; when the child is killed by a signal (the code under test crashed the
+    interpreter) or runs out of its limits, report that as the violation it is, with the last breadcrumb as input"""
+    import subprocess
+    import tempfile
+    ap = argparse.ArgumentParser()
+    ap.add_argument("pid")
+    ap.add_argument("--tier", default=os.environ.get("VERIF_TIER", "quick"))
+    ap.add_argument("--replay", default=None)
+    args = ap.parse_args(argv)
+    pid = args.pid.upper()
+    tier = args.tier if args.tier in ("quick", "thorough") else "quick"
+    seed = int(os.environ.get("VERIF_SEED", "0") or 0)
+    fd, crumb = tempfile.mkstemp(prefix="dv_crumb_", suffix=".json")
+    os.close(fd)
+    env = dict(os.environ, VERIF_CHILD="1", VERIF_BREADCRUMB=crumb)
+    t0 = time.time()
+    try:
+        r = subprocess.run([sys.executable, "-m", "harness.main"] + list(argv), env=env, cwd=common.VERIF,
+                           stderr=subprocess.PIPE, text=True)
+        sys.stderr.write(r.stderr[-20000:] if len(r.stderr) > 20000 else r.stderr)
+        rc = r.returncode
+        if rc in (0, 1, 2):
+            return rc
+        # abnormal end: signal (negative), 128+signal from a shell, or an interpreter abort
+        last = None
+        try:
+            txt = open(crumb).read()
+            last = json.loads(txt) if txt.strip() else None
+        except (OSError, ValueError):
+            last = None
+        sig = -rc if rc < 0 else (rc - 128 if rc > 128 else rc)
+        info = {"property": pid, "kind": "crash", "seed": seed, "tier": tier,
+                "what": "the check process was killed (signal %s) while code of the repository ran in-process" % sig,
+                "violation": None if last is None else {"clause": "the routine crashed the interpreter (signal %s)" % sig,
+                                                        "input": last},
+                "no_longer_checks": None if last is not None else
+                [{"correspondence": "model vs implementation", "why": "check process died with signal %s before finishing" % sig}],
+                "stderr_tail": r.stderr[-1500:]}
+        path = common.write_replay(pid, seed, info)
+        print("VIOLATION property=%s replay=%s%s" % (pid, os.path.relpath(path, common.VERIF),
+                                                      "" if last is not None else " no-failing-input-found"))
+        try:
+            idx = common.load_index()[pid]
+            common.write_evidence(pid, tier, seed, idx.get("level", "proof"),
+                                  {"obligations": len(idx["theorems"]), "discharged": 0, "theorems": idx["theorems"],
+                                   "evaluations": 0, "distinct_nontrivial": 0,
+                                   "rule": "check process crashed (signal %s); see the replay file" % sig,
+                                   "samples": [last] if last is not None else [], "exhaustive": False,
+                                   "checker_cmd": "cd lean && lake build", "trusted_base": ["see DESIGN.md"]},
+                                  idx.get("assumptions", []), time.time() - t0, 1)
+        except Exception:
+            traceback.print_exc()
+        log("[FAIL] %s tier=%s seed=%d check process crashed (signal %s)" % (pid, tier, seed, sig))
+        return 1
+    finally:
+        try:
+            os.unlink(crumb)
+        except OSError:
+            pass
+
+
 def main(argv=None):
+    if argv is None:
+        argv = sys.argv[1:]
+    if not os.environ.get("VERIF_CHILD"):
+        return supervise(argv)
     ap = argparse.ArgumentParser()
     ap.add_argument("pid")
     ap.add_argument("--tier", default=os.environ.get("VERIF_TIER", "quick"))
